@@ -362,6 +362,10 @@ def run(rep):
     rep.clause("R-C15-lanes", "the dot-product kernels add every product exactly once (shared with C15)")
     rep.not_decided += ["amplitude within 1 % / 0.1 %, stop-band leakage and interpolation-error bounds, window shapes beyond their defining formulas, f32 accuracy, calculate_cutoff's fitted constants: numerical analysis of a filter, not shape of code"]
     rep.trusted += ["syn parser", "sympy", "realfft transforms are unnormalised DFTs"]
+    # everything else a working resampler needs (see rules/shares.py: a change that makes the resampler panic, drop frames, corrupt state on a
+    # rejected call or forward a trait-object call wrongly breaks this property as well)
+    import shares as _shares
+    _shares.complete(rep)
     return rep.finish(level="other", explanation=(
         "NECESSARY STRUCTURAL CONDITIONS ONLY. The numeric substance of the property (dB and % figures) is not decided. What is decided are the mechanisms "
         "any faithful reproduction needs: exact blend polynomials on the right nodes, a correctly oriented and centred polyphase table, consistent In/Out arms, "
